@@ -530,11 +530,28 @@ impl hannibal::verif::Backend for BackendImpl {
 // ---------------------------------------------------------------- one execution
 
 /// Handle given to the scene's setup closure.
-pub struct Exec(Rc<Inner>);
+pub struct Exec(ExecKind);
+
+enum ExecKind {
+    Virtual(Rc<Inner>),
+    /// real-runtime mode: client futures are only collected; the caller spawns them on the runtime
+    Real(Rc<RefCell<Vec<(u8, LocalFuture)>>>),
+}
 
 impl Exec {
     pub fn spawn_client(&self, id: u8, fut: impl Future<Output = ()> + 'static) {
-        self.0.spawn(Box::pin(fut), Some(id));
+        match &self.0 {
+            ExecKind::Virtual(inner) => {
+                inner.spawn(Box::pin(fut), Some(id));
+            }
+            ExecKind::Real(v) => v.borrow_mut().push((id, Box::pin(fut))),
+        }
+    }
+
+    /// An `Exec` that only collects the client futures (for runs on a real runtime).
+    pub fn collector() -> (Exec, Rc<RefCell<Vec<(u8, LocalFuture)>>>) {
+        let v = Rc::new(RefCell::new(Vec::new()));
+        (Exec(ExecKind::Real(v.clone())), v)
     }
 }
 
@@ -600,7 +617,7 @@ pub fn run_one(
         futures_util::verif_set_select_chooser(Some(Box::new(move |n| n - 1)));
     }
 
-    setup(&Exec(inner.clone()));
+    setup(&Exec(ExecKind::Virtual(inner.clone())));
 
     let end = loop {
         if let Some(e) = inner.step() {
